@@ -244,11 +244,20 @@ func runCase(c *wk.Ctx, i int) {
 		}()
 	}
 	// ---- the driver
+	var openTr *leveldb.Transaction
 	driver := func() {
+		defer func() {
+			// a failed check may leave the transaction open: discard it, or the outside writers wait for ever
+			if openTr != nil {
+				openTr.Discard()
+			}
+		}()
 		for t := 0; t < ntx && atomic.LoadInt32(&failed) == 0; t++ {
 			// some plain writes in between
+			var recent [][]byte
 			for j := 0; j < r.Intn(30); j++ {
 				k := kg.Pick(r)
+				recent = append(recent, k)
 				v := model.Value(1, uint32(t), uint32(j), model.ValueSize(r, os.O.GetBlockSize(), os.O.GetWriteBuffer()))
 				if err := db.Put(k, v, nil); err != nil {
 					if withFaults {
@@ -261,6 +270,12 @@ func runCase(c *wk.Ctx, i int) {
 				note(k, "plain put before tx%d j=%d", t, j)
 			}
 			publish()
+			slowFlush := r.Intn(5) == 0
+			if slowFlush {
+				// the flush of the current write buffer is slow: a transaction must still not get ahead of it
+				st.AddDelay(vstor.OpCreate, storage.TypeTable, 20*time.Millisecond)
+				c.Count("transactions_opened_with_a_slow_flush_pending", 1)
+			}
 			tr, err := db.OpenTransaction()
 			if err != nil {
 				if withFaults {
@@ -269,6 +284,7 @@ func runCase(c *wk.Ctx, i int) {
 				fail("unexpected-error", "OpenTransaction: "+err.Error(), nil)
 				return
 			}
+			openTr = tr
 			atomic.AddInt64(&txEpoch, 1)
 			atomic.StoreInt64(&txDoneInv, 0)
 			atomic.StoreInt64(&txOpenRet, stamp())
@@ -277,14 +293,21 @@ func runCase(c *wk.Ctx, i int) {
 			setState("open", base, nil)
 			id := uint32(t)
 			nops := 1 + r.Intn(60)
-			if r.Intn(4) == 0 {
+			if slowFlush {
+				nops = 1 + r.Intn(3)
+			} else if r.Intn(4) == 0 {
 				nops = 200 + r.Intn(c.Pick(1500, 3000)) // spans several internal flushes
 			}
 			var heldIters []iterator.Iterator
 			var heldLists [][]model.KV
 			bodyOK := true
+			var txKeys [][]byte
 			for j := 0; j < nops && bodyOK; j++ {
 				k := kg.Pick(r)
+				if slowFlush && len(recent) > 0 {
+					k = recent[r.Intn(len(recent))] // overwrite what sits in the buffer that is being flushed
+				}
+				txKeys = append(txKeys, k)
 				switch x := r.Intn(22); {
 				case x >= 20:
 					// a small batch applied to the transaction
@@ -429,6 +452,9 @@ func runCase(c *wk.Ctx, i int) {
 					// all of it is visible at once, right now (not only after background work has settled)
 					for q := 0; q < 25; q++ {
 						k := kg.Pick(r)
+						if q < len(txKeys) {
+							k = txKeys[q]
+						}
 						want, live := txM.Get(k)
 						got, gerr := db.Get(k, nil)
 						if gerr != nil && gerr != leveldb.ErrNotFound {
